@@ -115,91 +115,9 @@ LOOP_OK = re.compile(CLOSURE_OK.pattern + r"|std::iter::Iterator::next|std::iter
 from .parse_common import bool_sources as _bool_sources
 
 
-def _is_eq_call(name):
-    return bool(name) and "PartialEq" in name and name.endswith("::eq")
-
-
 def closure_true_implies_equality(cf):
-    """the membership closure returns true only where a string equality has succeeded: every definition of its result is the result
-    of `==` itself, `false`, a conjunction with such a value, or `true` on a path through the true edge of an `==`.
-    (`non_empty && a == b` passes; `non_empty || a == b`, `a != b`, a bare `true` do not.)"""
-    cfg, du = cfg_of(cf), du_of(cf)
-    eq_edges = []
-    for sb in cfg.live_blocks():
-        st = cfg.blocks[sb]["term"]
-        if st["k"] != "switch" or st.get("discr_ty") != "bool":
-            continue
-        v = du.val_operand(st["discr"])
-        neg = False
-        while v[0] == "unop" and v[1] == "Not":
-            v = v[2]; neg = not neg
-        if v[0] == "call" and v[1] and "PartialEq" in v[1] and v[1].endswith(("::eq", "::ne")):
-            if v[1].endswith("::ne"):
-                neg = not neg
-            for val, tb in st["targets"]:
-                if val == 0:
-                    eq_edges.append((sb, tb) if neg else (sb, st["otherwise"]))
-
-    def is_call(v, suffix):
-        return v[0] == "call" and bool(v[1]) and "PartialEq" in v[1] and v[1].endswith(suffix)
-
-    # T(x): x is true only where the equality has succeeded;  F(x): x is false only where the equality has succeeded
-    def holds(v, want, depth=0):
-        if depth > 10:
-            return False
-        if v[0] == "const":
-            val = bool(v[1]) if isinstance(v[1], (bool, int)) else None
-            return val is not None and val != want        # the constant never takes the value in question
-        if v[0] == "call":
-            return is_call(v, "::eq") if want else is_call(v, "::ne")
-        if v[0] == "unop" and v[1] == "Not":
-            return holds(v[2], not want, depth + 1)
-        if v[0] == "binop" and v[1] in ("BitAnd", "BitOr"):
-            one_suffices = (v[1] == "BitAnd") == want      # true of a&b needs both true; false of a|b needs both false
-            a_, b_ = holds(v[2], want, depth + 1), holds(v[3], want, depth + 1)
-            return (a_ or b_) if one_suffices else (a_ and b_)
-        if v[0] == "place" and not v[1][1]:
-            return local_ok(v[1][0], want, depth + 1)
-        return False
-
-    def local_ok(l, want=True, depth=0):
-        if depth > 10:
-            return False
-        ds = du.defs.get(l, [])
-        if not ds:
-            return False
-        for d in ds:
-            if d[0] == "call":
-                n = callee_name(d[3]) or ""
-                if not ("PartialEq" in n and n.endswith("::eq" if want else "::ne")):
-                    return False
-            elif d[0] == "assign":
-                rv = d[3]
-                if rv["k"] == "use" and rv["ops"][0].get("k") == "const":
-                    val = rv["ops"][0].get("v")
-                    if isinstance(val, bool) and val == want and not cfg.edges_dominate(eq_edges, d[1]):
-                        return False
-                    continue
-                if rv["k"] == "use" and rv["ops"][0].get("k") in ("copy", "move") and not rv["ops"][0]["p"]:
-                    if not local_ok(rv["ops"][0]["l"], want, depth + 1):
-                        return False
-                    continue
-                if rv["k"] in ("binop", "unop"):
-                    def opv(o):
-                        # operands stay symbolic (a multi-def flag is judged definition by definition)
-                        if o.get("k") in ("copy", "move") and not o["p"]:
-                            w = du.val_operand(o)
-                            return w if w[0] in ("call", "const", "unop", "binop") and len(du.defs.get(o["l"], [])) == 1 else ("place", (o["l"], ()))
-                        return du.val_operand(o)
-                    v = (rv["k"], rv["op"]) + tuple(opv(o) for o in rv["ops"])
-                    if not holds(v, want, depth + 1):
-                        return False
-                    continue
-                return False
-            else:
-                return False
-        return True
-    return local_ok(0, True)
+    from ..implies import true_implies_key_equality
+    return true_implies_key_equality(cf)
 
 
 def _loop_membership(F, fn, cfg, du, l):
